@@ -140,8 +140,13 @@ Proof.
       * apply chk_none in Hd. rewrite Hd. reflexivity.
     + apply imp_true. intros Hs. cbn [pext_migrate e_dis_pub_override e_override_publisher]. rewrite Hs.
       destruct (e_dis_pub_override (p_x p)); [apply beqb_refl|reflexivity].
-    + apply imp_true. intros Hs. cbn [pext_migrate e_source_protocol e_rtsp_transport e_source_any_port e_rtsp_any_port].
-      rewrite Hs. rewrite (opt_eqb_opt_or Z.eqb _ _ Z.eqb_refl), (opt_eqb_opt_or Bool.eqb _ _ beqb_refl). reflexivity.
+    + apply imp_true. intros Hs.
+      cbn [pext_migrate e_source_protocol e_rtsp_transport e_source_any_port e_rtsp_any_port e_port_range].
+      rewrite Hs. rewrite (opt_eqb_opt_or Z.eqb _ _ Z.eqb_refl), (opt_eqb_opt_or Bool.eqb _ _ beqb_refl), !andb_true_r.
+      clear - H4 Hs. unfold source_err in H4. unfold p_source, is_rtsp_source in *.
+      destruct (list_eqb (p_source_str p) (bytes "publisher")); [discriminate|].
+      destruct (find_static (p_source_str p)) as [[]|]; try discriminate.
+      cbn [static_err] in H4. peel H4 Ha. apply chk_none in H4. apply negb_false_iff in H4. exact H4.
     + cbn [pext_migrate e_on_ready e_on_available]. apply opt_eqb_opt_or. apply list_eqb_refl.
     + cbn [pext_migrate e_ready_restart e_available_restart]. apply opt_eqb_opt_or. apply beqb_refl.
     + cbn [pext_migrate e_on_not_ready e_on_unavailable]. apply opt_eqb_opt_or. apply list_eqb_refl.
@@ -636,6 +641,15 @@ Proof.
   unfold empty in H2. destruct (u_pass u); [reflexivity|discriminate].
 Qed.
 
+Ltac zb := match goal with
+ | H : (?a =? ?b) = true |- ?a = ?b => apply Z.eqb_eq; exact H
+ | H : (?a =? ?b) = true |- ?b = ?a => symmetry; apply Z.eqb_eq; exact H
+ | H : negb (?a =? ?b) = true |- ?a <> ?b => apply Z.eqb_neq; apply negb_true_iff; exact H
+ | H : (?a <? ?b) = true |- ?a < ?b => apply Z.ltb_lt; exact H
+ | H : ?a = ?b |- (?a =? ?b) = true => apply Z.eqb_eq; exact H
+ end.
+Ltac enc_or He := destruct He as [He|He]; rewrite He; reflexivity.
+
 Ltac imp_hyp pat tac :=
   match goal with H : imp pat _ = true |- _ => let H' := fresh in pose proof H as H'; rewrite imp_true in H'; tac H' end.
 
@@ -697,14 +711,14 @@ Proof.
   fold x in Hx. fold a in Hx. fold r in Hx. fold w in Hx.
   rewrite !andb_true_iff in Hx. decompose [and] Hx. clear Hx.
   repeat match goal with |- _ /\ _ => split end.
-  - intros Hm. imp_hyp (a_method a =? 0) ltac:(fun K => apply forallb_user_documented; apply K; lia).
-  - intros Hm. imp_hyp (a_method a =? 1) ltac:(fun K => assert (K' := K ltac:(lia)); apply andb_true_iff in K' as [K1 K2]).
+  - intros Hm. imp_hyp (a_method a =? 0) ltac:(fun K => apply forallb_user_documented; apply K; zb).
+  - intros Hm. imp_hyp (a_method a =? 1) ltac:(fun K => assert (K' := K ltac:(zb)); apply andb_true_iff in K' as [K1 K2]).
     split; [apply nonempty_true; assumption|apply http_url_starts; assumption].
-  - intros Hm. imp_hyp (a_method a =? 2) ltac:(fun K => assert (K' := K ltac:(lia)); apply andb_true_iff in K' as [K1 K3];
+  - intros Hm. imp_hyp (a_method a =? 2) ltac:(fun K => assert (K' := K ltac:(zb)); apply andb_true_iff in K' as [K1 K3];
       apply andb_true_iff in K1 as [K1 K2]).
     split; [apply nonempty_true; assumption|]. split; [apply http_url_starts; assumption|apply nonempty_true; assumption].
   - intros u Hu. match goal with K : match a_ext_url a with _ => _ end = true |- _ => rewrite Hu in K;
-      apply andb_true_iff in K as [K1 K2]; apply list_eqb_eq in K2 end. split; [lia|assumption].
+      apply andb_true_iff in K as [K1 K2]; apply list_eqb_eq in K2 end. split; [zb|assumption].
   - intros Hon. imp_hyp (x_api x) ltac:(fun K => apply nonempty_true; apply K; exact Hon).
   - intros Hon. imp_hyp (x_metrics x) ltac:(fun K => apply nonempty_true; apply K; exact Hon).
   - intros Hon. imp_hyp (x_pprof x) ltac:(fun K => apply nonempty_true; apply K; exact Hon).
@@ -719,26 +733,26 @@ Proof.
       rewrite !andb_true_iff in K; destruct K as [[K1 K2] K3] end.
     match goal with K : imp (r_on r && has_digest r) _ = true |- _ => rename K into K4 end.
     split; [|split; [|split]].
-    + intros He. rewrite imp_true in K1. assert (K := K1 ltac:(lia)). rewrite !andb_true_iff in K.
+    + intros He. rewrite imp_true in K1. assert (K := K1 ltac:(enc_or He)). rewrite !andb_true_iff in K.
       destruct K as [[Ka Kb] Kc]. split; [apply nonempty_true; exact Ka|]. split; intros Ht.
       * rewrite imp_true in Kb. specialize (Kb Ht). apply andb_true_iff in Kb as [? ?].
         split; apply nonempty_true; assumption.
       * rewrite imp_true in Kc. specialize (Kc Ht). rewrite !andb_true_iff in Kc. destruct Kc as [[? ?] ?].
-        split; [apply nonempty_true; assumption|lia].
-    + intros He. rewrite imp_true in K2. assert (K := K2 ltac:(lia)). rewrite !andb_true_iff in K.
+        split; [apply nonempty_true; assumption|split; zb].
+    + intros He. rewrite imp_true in K2. assert (K := K2 ltac:(enc_or He)). rewrite !andb_true_iff in K.
       destruct K as [[Ka Kb] Kc]. split; [apply nonempty_true; exact Ka|]. split; intros Ht.
       * rewrite imp_true in Kb. specialize (Kb Ht). apply andb_true_iff in Kb as [? ?].
         split; apply nonempty_true; assumption.
       * rewrite imp_true in Kc. specialize (Kc Ht). rewrite !andb_true_iff in Kc. destruct Kc as [[? ?] ?].
-        split; [apply nonempty_true; assumption|lia].
-    + destruct (r_auth_methods r); [discriminate|congruence].
+        split; [apply nonempty_true; assumption|split; zb].
+    + destruct (r_auth_methods r); [discriminate|discriminate].
     + intros Hd. rewrite imp_true in K4. rewrite Hon in K4. unfold has_digest in K4.
       assert (Hex : existsb (Z.eqb 1) (r_auth_methods r) = true).
       { apply existsb_exists. exists 1. split; [exact Hd|reflexivity]. }
       rewrite Hex in K4. specialize (K4 eq_refl). apply andb_true_iff in K4 as [Km Kh].
-      split; [lia|]. intros u Hu. apply negb_true_iff in Kh.
+      split; [zb|]. intros u Hu. apply negb_true_iff in Kh.
       destruct (user_hashed u) eqn:E; [|reflexivity].
-      assert (existsb user_hashed (a_users a) = true); [|congruence].
+      assert (Hc' : existsb user_hashed (a_users a) = true); [|rewrite Hc' in Kh; discriminate].
       apply existsb_exists. exists u. split; assumption.
   - intros Hon.
     match goal with K : imp (w_on w) (forallb _ _ && _ && _) = true |- _ => rewrite imp_true in K; specialize (K Hon);
@@ -746,13 +760,13 @@ Proof.
     split; [|split].
     + intros s Hs. rewrite forallb_forall in K1. apply K1. exact Hs.
     + rewrite !orb_true_iff in K2. destruct K2 as [[K|K]|K]; [left|right; left|right; right]; try (apply nonempty_true; exact K).
-      destruct (w_ice w); [discriminate|congruence].
+      destruct (w_ice w); [discriminate|discriminate].
     + intros Hl. rewrite imp_true in K3. rewrite orb_true_iff in K3.
       assert (K : w_from_ifaces w || match w_hosts w with [] => false | _ => true end = true).
       { apply K3. destruct Hl as [Hl|Hl]; apply nonempty_true in Hl; [left|right]; exact Hl. }
-      apply orb_true_iff in K as [K|K]; [left; exact K|right]. destruct (w_hosts w); [discriminate|congruence].
+      apply orb_true_iff in K as [K|K]; [left; exact K|right]. destruct (w_hosts w); [discriminate|discriminate].
   - intros d Hd. match goal with K : match r_disable r with _ => _ end = true |- _ => rewrite Hd in K; apply eqb_prop in K; exact K end.
-  - intros v Hv. match goal with K : opt_eqb Z.eqb (r_encryption_dep r) _ = true |- _ => rewrite Hv in K; simpl in K end. lia.
+  - intros v Hv. match goal with K : opt_eqb Z.eqb (r_encryption_dep r) _ = true |- _ => rewrite Hv in K; simpl in K end. zb.
   - intros v Hv. match goal with K : opt_eqb list_eqb (w_udp_mux w) _ = true |- _ => rewrite Hv in K; simpl in K;
       apply list_eqb_eq in K; symmetry; exact K end.
   - intros v Hv. match goal with K : opt_eqb list_eqb (d_path (x_rec x)) _ = true |- _ => rewrite Hv in K; simpl in K;
@@ -764,16 +778,14 @@ Proof.
       match goal with K : imp (src_eqb (p_source p) SRpi) _ = true |- _ => rewrite imp_true in K; rewrite Hs in K;
         specialize (K eq_refl); unfold rpi_documented_params in K; fold e in K; rewrite !andb_true_iff in K;
         decompose [and] K; clear K end.
-      repeat match goal with |- _ /\ _ => split end; try (apply str_in_In; assumption); try lia.
+      repeat match goal with |- _ /\ _ => split end; try (apply str_in_In; assumption); try zb.
       * intros Hm. match goal with K : imp (mjpeg_dims _ _) _ = true |- _ => rewrite imp_true in K; specialize (K Hm);
-          rewrite !andb_true_iff in K; decompose [and] K end. repeat split; try lia.
-        -- match goal with K : (e_w e mod 8 =? 0) = true |- _ => apply Z.eqb_eq in K; exact K end.
-        -- match goal with K : (e_h e mod 8 =? 0) = true |- _ => apply Z.eqb_eq in K; exact K end.
-      * intros v Hv. match goal with K : opt_eqb Z.eqb (e_jpeg_q e) _ = true |- _ => rewrite Hv in K; simpl in K end. lia.
+          rewrite !andb_true_iff in K; decompose [and] K end. repeat split; try zb.
+      * intros v Hv. match goal with K : opt_eqb Z.eqb (e_jpeg_q e) _ = true |- _ => rewrite Hv in K; simpl in K end. zb.
     + intros Hs. match goal with K : imp (src_eqb (p_source p) SRedirect) _ = true |- _ => rewrite imp_true in K;
         rewrite Hs in K; exact (K eq_refl) end.
-    + intros Ha. match goal with K : imp (p_aa p) _ = true |- _ => rewrite imp_true in K; specialize (K Ha) end.
-      unfold tracks_n in *. destruct (e_aa_file (p_x p)), (p_tracks p); simpl in *; try congruence; try lia.
+    + intros Ha. match goal with K : imp (p_aa p) _ = true |- _ => rewrite imp_true in K; specialize (K Ha);
+        clear - K; unfold tracks_n in K; destruct (e_aa_file (p_x p)), (p_tracks p); simpl in *; try congruence; try lia end.
     + intros v Hv. match goal with K : opt_eqb list_eqb (e_on_ready (p_x p)) _ = true |- _ => rewrite Hv in K; simpl in K;
         apply list_eqb_eq in K; symmetry; exact K end.
 Qed.
